@@ -269,6 +269,11 @@ def main(ctx):
     n = 3000 if ctx.tier == 'quick' else 60000
     ctx.hyp(mutated(), n, label='mutated')
     ctx.hyp(hex_cases(), n // 3, label='hex', seed_offset=1)
+    if ctx.tier == 'thorough':
+        from lib.harness import run_fuzz
+        seeds = [bytes(R.ref_encode(R.default_msg(t))) for t in R.ALL_TYPES if t != 'sysex'] + [b'\xf0\x01\x02\xf7',
+                                                                                           b'\xff90 01 02']
+        run_fuzz(ctx, 'C02', 1000000, seeds, max_len=48)
     # every non-integer / out-of-range item at every position of one valid encoding of each type
     for t in R.ALL_TYPES:
         d = R.default_msg(t)
